@@ -144,6 +144,8 @@ class CallsMixin:
             if r.endswith(".0") and not debug:
                 r = r[:-2]
             return S(r)
+        if isinstance(v, (St, En)) and debug:
+            return S("<%s:?>" % v.name)      # Debug renderings only appear in messages; never compared
         if isinstance(v, (St, En)):
             ms = self.ip.methods.get(v.name, {})
             if "to_string" in ms:
